@@ -397,3 +397,17 @@ Proof.
   { clear H. induction P as [|o P IH]; [apply Forall_nil | apply Forall_cons; [apply all_ops_ts | exact IH]]. }
   exact (pipe_ts P HF xs r H).
 Qed.
+
+(* the two plain models agree wherever both are defined: flattening the timed semantics gives plain_pipe *)
+Lemma its_inj : forall a b : list val, its a = its b -> a = b.
+Proof.
+  induction a as [|x a IH]; intros [|y b] H; cbn in H; try discriminate; [reflexivity|].
+  inversion H; subst. f_equal. now apply IH.
+Qed.
+Theorem plain_models_agree (P : list op) (xs ys : list val) (r : timed) :
+  plain_pipe P xs = Some ys -> ptimed_pipe P xs = Some r -> ys = concat (fst r) ++ snd r.
+Proof.
+  intros H1 H2. apply its_inj.
+  rewrite <- (plain_pipe_items P xs ys H1). unfold items_of. rewrite (ptimed_pipe_sound P xs r H2).
+  unfold its. rewrite map_app, concat_map. reflexivity.
+Qed.
